@@ -1,0 +1,310 @@
+//! Verification-only facade (compiled only with `--cfg libp2p_verif`).
+//!
+//! Thin wrappers around the crate-private routing table and query iterators for the simulation
+//! harness in /verif. No logic of its own: every function forwards to the real items and copies
+//! plain data out.
+
+use std::{num::NonZeroUsize, time::Duration};
+
+use libp2p_identity::PeerId;
+use web_time::Instant;
+
+use crate::{
+    kbucket::{self, Entry, InsertResult, KBucketConfig, KBucketsTable, NodeStatus},
+    query::peers::{
+        PeersIterState,
+        closest::{ClosestPeersIter, ClosestPeersIterConfig, disjoint::ClosestDisjointPeersIter},
+        fixed::FixedPeersIter,
+    },
+};
+
+/// Outcome of [`Table::insert`].
+#[derive(Debug, Clone, PartialEq, Eq)]
+pub enum Inserted {
+    Inserted,
+    /// pending; the named entry is the one that would be replaced
+    Pending(PeerId),
+    Full,
+    /// the key is the local key
+    SelfEntry,
+    /// the key is already present (or already pending)
+    Present,
+}
+
+/// Outcome of [`Table::lookup`]; the flag is "connected".
+#[derive(Debug, Clone, PartialEq, Eq)]
+pub enum Lookup {
+    Absent,
+    Present(bool),
+    Pending(bool),
+    SelfEntry,
+}
+
+/// One bucket: (index, entries in bucket order with their status, pending entry).
+pub type BucketView = (usize, Vec<(PeerId, u32, bool)>, Option<(PeerId, u32, bool)>);
+
+/// The real routing table over `PeerId` keys with `u32` values.
+pub struct Table(KBucketsTable<kbucket::Key<PeerId>, u32>);
+
+fn status(connected: bool) -> NodeStatus {
+    if connected {
+        NodeStatus::Connected
+    } else {
+        NodeStatus::Disconnected
+    }
+}
+
+impl Table {
+    pub fn new(local: PeerId, bucket_size: usize, pending_timeout: Duration) -> Self {
+        let mut config = KBucketConfig::default();
+        config.set_bucket_size(NonZeroUsize::new(bucket_size).expect("bucket size > 0"));
+        config.set_pending_timeout(pending_timeout);
+        Table(KBucketsTable::new(kbucket::Key::from(local), config))
+    }
+
+    pub fn insert(&mut self, peer: PeerId, value: u32, connected: bool) -> Inserted {
+        let key = kbucket::Key::from(peer);
+        match self.0.entry(&key) {
+            None => Inserted::SelfEntry,
+            Some(Entry::Absent(e)) => match e.insert(value, status(connected)) {
+                InsertResult::Inserted => Inserted::Inserted,
+                InsertResult::Full => Inserted::Full,
+                InsertResult::Pending { disconnected } => {
+                    Inserted::Pending(*disconnected.preimage())
+                }
+            },
+            Some(_) => Inserted::Present,
+        }
+    }
+
+    /// Update the status of a present or pending entry; false if the key is in neither state.
+    pub fn update(&mut self, peer: PeerId, connected: bool) -> bool {
+        let key = kbucket::Key::from(peer);
+        match self.0.entry(&key) {
+            Some(Entry::Present(mut e, _)) => {
+                e.update(status(connected));
+                true
+            }
+            Some(Entry::Pending(e, _)) => {
+                e.update(status(connected));
+                true
+            }
+            _ => false,
+        }
+    }
+
+    /// Remove a present or pending entry; false if the key is in neither state.
+    pub fn remove(&mut self, peer: PeerId) -> bool {
+        let key = kbucket::Key::from(peer);
+        match self.0.entry(&key) {
+            Some(Entry::Present(e, _)) => {
+                e.remove();
+                true
+            }
+            Some(Entry::Pending(e, _)) => {
+                e.remove();
+                true
+            }
+            _ => false,
+        }
+    }
+
+    /// Where the table has `peer` right now.
+    pub fn lookup(&mut self, peer: PeerId) -> Lookup {
+        let key = kbucket::Key::from(peer);
+        match self.0.entry(&key) {
+            None => Lookup::SelfEntry,
+            Some(Entry::Present(_, s)) => Lookup::Present(s == NodeStatus::Connected),
+            Some(Entry::Pending(_, s)) => Lookup::Pending(s == NodeStatus::Connected),
+            Some(Entry::Absent(_)) => Lookup::Absent,
+        }
+    }
+
+    /// Applied pending entries since the last call: (inserted, evicted).
+    pub fn take_applied_pending(&mut self) -> Vec<(PeerId, Option<PeerId>)> {
+        let mut out = Vec::new();
+        while let Some(a) = self.0.take_applied_pending() {
+            out.push((
+                *a.inserted.key.preimage(),
+                a.evicted.map(|n| *n.key.preimage()),
+            ));
+        }
+        out
+    }
+
+    /// Every non-empty bucket (this applies due pending entries, like any table access).
+    pub fn view(&mut self) -> Vec<BucketView> {
+        let mut out = Vec::new();
+        for (i, b) in self.0.iter().enumerate() {
+            let entries: Vec<(PeerId, u32, bool)> = b
+                .iter()
+                .map(|e| {
+                    (
+                        *e.node.key.preimage(),
+                        *e.node.value,
+                        e.status == NodeStatus::Connected,
+                    )
+                })
+                .collect();
+            if !entries.is_empty() {
+                out.push((i, entries, None));
+            }
+        }
+        out
+    }
+
+    /// The bucket index the table uses for `peer` (None for the local key).
+    pub fn bucket_index(&self, peer: PeerId) -> Option<usize> {
+        let key = kbucket::Key::from(peer);
+        self.0
+            .local_key()
+            .as_ref()
+            .distance(&key)
+            .ilog2()
+            .map(|i| i as usize)
+    }
+
+    /// Peers ordered by increasing distance to `target`.
+    pub fn closest(&mut self, target: PeerId) -> Vec<PeerId> {
+        let t = kbucket::Key::from(target);
+        self.0.closest_keys(&t).map(|k| *k.preimage()).collect()
+    }
+}
+
+/// Plain-data view of [`PeersIterState`].
+#[derive(Debug, Clone, PartialEq, Eq)]
+pub enum IterState {
+    Waiting(Option<PeerId>),
+    WaitingAtCapacity,
+    Finished,
+}
+
+fn state(s: PeersIterState<'_>) -> IterState {
+    match s {
+        PeersIterState::Waiting(p) => IterState::Waiting(p.map(|c| c.into_owned())),
+        PeersIterState::WaitingAtCapacity => IterState::WaitingAtCapacity,
+        PeersIterState::Finished => IterState::Finished,
+    }
+}
+
+fn config(parallelism: usize, num_results: usize, peer_timeout: Duration) -> ClosestPeersIterConfig {
+    ClosestPeersIterConfig {
+        parallelism: NonZeroUsize::new(parallelism).expect("parallelism > 0"),
+        num_results: NonZeroUsize::new(num_results).expect("num_results > 0"),
+        peer_timeout,
+    }
+}
+
+/// XOR distance order of two peers relative to a target, as the iterators see it.
+pub fn closer(target: PeerId, a: PeerId, b: PeerId) -> std::cmp::Ordering {
+    let t = kbucket::Key::from(target);
+    t.distance(&kbucket::Key::from(a))
+        .cmp(&t.distance(&kbucket::Key::from(b)))
+}
+
+/// The real closest-peers iterator.
+pub struct Closest(ClosestPeersIter);
+
+impl Closest {
+    pub fn new(
+        target: PeerId,
+        known: Vec<PeerId>,
+        parallelism: usize,
+        num_results: usize,
+        peer_timeout: Duration,
+    ) -> Self {
+        Closest(ClosestPeersIter::with_config(
+            config(parallelism, num_results, peer_timeout),
+            kbucket::Key::from(target),
+            known.into_iter().map(kbucket::Key::from),
+        ))
+    }
+    pub fn next(&mut self, now: Instant) -> IterState {
+        state(self.0.next(now))
+    }
+    pub fn on_success(&mut self, peer: &PeerId, closer_peers: Vec<PeerId>) -> bool {
+        self.0.on_success(peer, closer_peers)
+    }
+    pub fn on_failure(&mut self, peer: &PeerId) -> bool {
+        self.0.on_failure(peer)
+    }
+    pub fn num_waiting(&self) -> usize {
+        self.0.num_waiting()
+    }
+    pub fn finish(&mut self) {
+        self.0.finish()
+    }
+    pub fn is_finished(&self) -> bool {
+        self.0.is_finished()
+    }
+    pub fn into_result(self) -> Vec<PeerId> {
+        self.0.into_result().collect()
+    }
+}
+
+/// The real disjoint-paths closest-peers iterator.
+pub struct Disjoint(ClosestDisjointPeersIter);
+
+impl Disjoint {
+    pub fn new(
+        target: PeerId,
+        known: Vec<PeerId>,
+        parallelism: usize,
+        num_results: usize,
+        peer_timeout: Duration,
+    ) -> Self {
+        Disjoint(ClosestDisjointPeersIter::with_config(
+            config(parallelism, num_results, peer_timeout),
+            kbucket::Key::from(target),
+            known.into_iter().map(kbucket::Key::from),
+        ))
+    }
+    pub fn next(&mut self, now: Instant) -> IterState {
+        state(self.0.next(now))
+    }
+    pub fn on_success(&mut self, peer: &PeerId, closer_peers: Vec<PeerId>) -> bool {
+        self.0.on_success(peer, closer_peers)
+    }
+    pub fn on_failure(&mut self, peer: &PeerId) -> bool {
+        self.0.on_failure(peer)
+    }
+    pub fn finish(&mut self) {
+        self.0.finish()
+    }
+    pub fn is_finished(&self) -> bool {
+        self.0.is_finished()
+    }
+    pub fn into_result(self) -> Vec<PeerId> {
+        self.0.into_result().collect()
+    }
+}
+
+/// The real fixed-peers iterator.
+pub struct Fixed(FixedPeersIter);
+
+impl Fixed {
+    pub fn new(peers: Vec<PeerId>, parallelism: usize) -> Self {
+        Fixed(FixedPeersIter::new(
+            peers,
+            NonZeroUsize::new(parallelism).expect("parallelism > 0"),
+        ))
+    }
+    pub fn next(&mut self) -> IterState {
+        state(self.0.next())
+    }
+    pub fn on_success(&mut self, peer: &PeerId) -> bool {
+        self.0.on_success(peer)
+    }
+    pub fn on_failure(&mut self, peer: &PeerId) -> bool {
+        self.0.on_failure(peer)
+    }
+    pub fn finish(&mut self) {
+        self.0.finish()
+    }
+    pub fn is_finished(&self) -> bool {
+        self.0.is_finished()
+    }
+    pub fn into_result(self) -> Vec<PeerId> {
+        self.0.into_result().collect()
+    }
+}
